@@ -34,7 +34,7 @@ type c14Case struct {
 	// plugin
 	PlugProto string `json:"plug_proto"` // netrpc | grpc
 	PlugTLS   string `json:"plug_tls"`   // "" | static
-	Style     string `json:"style"`      // real | fake6 (old plugin: six fields) | fakefalse (seventh field "false")
+	Style     string `json:"style"`      // real | fake6 (old plugin: six fields) | fakefalse (seventh field "false") | fake4 (legacy plugin: four fields, net/rpc implied)
 }
 
 var (
@@ -44,7 +44,7 @@ var (
 	c14Allowed   = []string{"both", "default", "netrpc", "grpc"}
 	c14Protos    = []string{"netrpc", "grpc"}
 	c14PlugTLS   = []string{"", "static"}
-	c14Styles    = []string{"real", "fake6", "fakefalse"}
+	c14Styles    = []string{"real", "fake6", "fakefalse", "fake4"}
 )
 
 func c14Gen(t *rapid.T) any {
@@ -57,7 +57,7 @@ func c14Gen(t *rapid.T) any {
 	c.Secure = pct(t, "secure", 25)
 	c.PlugProto = oneOf(t, "plugproto", c14Protos)
 	c.PlugTLS = c14PlugTLS[weighted(t, "plugtls", 65, 35)]
-	c.Style = c14Styles[weighted(t, "style", 76, 12, 12)]
+	c.Style = c14Styles[weighted(t, "style", 70, 10, 10, 10)]
 	// steer part of the sample into cells that a uniform draw rarely hits (by construction, not rejection)
 	fixLaunch := func() {
 		if c.Launch != "cmd" && c.Launch != "runner" {
@@ -78,7 +78,10 @@ func c14Gen(t *rapid.T) any {
 		c.Allowed = oneOf(t, "allowgrpc", []string{"both", "grpc"})
 	case 2: // protocol outside the allowed list
 		fixLaunch()
-		if c.PlugProto == "grpc" {
+		if rapid.Bool().Draw(t, "legacyline") {
+			c.Style = "fake4"
+			c.Allowed = "grpc"
+		} else if c.PlugProto == "grpc" {
 			c.Allowed = oneOf(t, "denygrpc", []string{"default", "netrpc"})
 		} else {
 			c.Allowed = "grpc"
@@ -180,10 +183,10 @@ func (c *c14Case) expect() c14Expect {
 		}
 		return c14Expect{c14Works, ""}
 	}
-	if !allowed[c.PlugProto] {
+	if !allowed[c.proto()] {
 		return c14Expect{c14StartError, "protocol not allowed"}
 	}
-	if c.Mux && c.PlugProto == "grpc" && c.Style != "real" {
+	if c.Mux && c.proto() == "grpc" && c.Style != "real" {
 		return c14Expect{c14MuxError, "plugin does not advertise multiplexing"}
 	}
 	if c.Style != "real" {
@@ -200,7 +203,15 @@ func (c *c14Case) expect() c14Expect {
 }
 
 func (c *c14Case) kindSpeaks() bool {
-	return c.HostKind == "dual" || c.HostKind == c.PlugProto
+	return c.HostKind == "dual" || c.HostKind == c.proto()
+}
+
+// proto is the protocol the plugin's handshake line stands for: a four-field legacy line implies net/rpc.
+func (c *c14Case) proto() string {
+	if c.Style == "fake4" {
+		return "netrpc"
+	}
+	return c.PlugProto
 }
 
 var (
@@ -352,8 +363,11 @@ func c14Run(ci any) (out Outcome) {
 			return pluginCmd(ps)
 		}
 		line := "1|1|{NET}|{ADDR}|" + c.PlugProto + "|"
-		if c.Style == "fakefalse" {
+		switch c.Style {
+		case "fakefalse":
 			line += "|false"
+		case "fake4":
+			line = "1|1|{NET}|{ADDR}"
 		}
 		return fakeCmd(FakeSpec{Steps: []FakeStep{{Op: "listen"}, {Op: "out", Data: []byte(line + "\n")}, {Op: "forever"}}})
 	}
@@ -554,7 +568,7 @@ var propC14 = register(&Prop{
 	New:  func() any { return &c14Case{} },
 	Run:  c14Run,
 	Enum: c14Enum,
-	Rule: "configuration product: host {plugin-type kind of its set, TLS none/static/AutoMTLS, mux, launch cmd/runner/reattach/cmd+runner, allowed list default/netrpc/grpc/both, SecureConfig} x plugin {net/rpc or gRPC, TLSProvider none/static, real mux-aware plugin / old-style fake printing six fields / fake announcing mux=false} = 6912 cells; " +
+	Rule: "configuration product: host {plugin-type kind of its set, TLS none/static/AutoMTLS, mux, launch cmd/runner/reattach/cmd+runner, allowed list default/netrpc/grpc/both, SecureConfig} x plugin {net/rpc or gRPC, TLSProvider none/static, real mux-aware plugin / old-style fake printing six fields / fake announcing mux=false} = 9216 cells; " +
 		"quick samples it with rapid, thorough enumerates it completely. Oracle: a reference table from the documentation: compatible => Start, dispense, call, brokered callback in both directions, ping, 5 MiB response, unknown-name error all work; " +
 		"option conflicts => error before launch (ErrSecureConfigAndReattach via errors.Is); disallowed protocol / missing mux support => Start error (ErrGRPCBrokerMuxNotSupported via errors.Is) and the plugin is gone; transport-security or plugin-type mismatch => an error on first use within 15 s, never success; protocol always inside the allowed list. " +
 		"Cells the documentation excludes (AutoMTLS+reattach, AutoMTLS+TLSProvider, SecureConfig+RunnerFunc, reattach to a fake) are counted as undefined and not executed. Non-trivial: two or more non-default dimensions, or a negative cell.",
